@@ -1,9 +1,13 @@
 """C14 — subset and plate views are exact row selections with set-algebra semantics."""
+import logging
+
 import numpy as np
 
 import common
 import screenlib as sl
 from common import ImplError, cmp_result, float_key, impl_call, s2l
+
+logging.getLogger("batchie").setLevel(logging.ERROR)     # Screen.single_treatment_effects warns when it returns None
 
 ID = "C14"
 LEVEL = "proof"
@@ -317,6 +321,21 @@ def pred_view(ev, tree, v):
             return "attribute %s of the view is not the parent's values at rows %r in parent order" % (name, idx)
     if v.size != len(idx):
         return "size %d of the view differs from the number of selected rows %d" % (v.size, len(idx))
+    # single_treatment_effects is a per-experiment attribute too: a view reports the PARENT's array at its rows
+    # (what the parent's array is belongs to C20); an exception / None of the parent is the view's too
+    def ste(x):
+        try:
+            a = x.single_treatment_effects
+        except Exception as e:      # noqa: BLE001 - compared by type
+            return ("raises", type(e).__name__)
+        return ("none",) if a is None else ("array", np.asarray(a, dtype=float))
+    pe, ve = ste(ev.screens[k]), ste(v)
+    if pe[0] != ve[0] or (pe[0] == "raises" and pe[1] != ve[1]):
+        return "single_treatment_effects of the view is %s although the parent's is %s" % (ve[:2] if ve[0] != "array" else "an array", pe[:2] if pe[0] != "array" else "an array")
+    if pe[0] == "array":
+        want = pe[1][idx] if len(idx) else pe[1][:0]
+        if ve[1].shape != want.shape or not np.array_equal(ve[1], want, equal_nan=True):
+            return "attribute single_treatment_effects of the view is not the parent's values at rows %r" % (idx,)
     return None
 
 
